@@ -1,2 +1,213 @@
+"""C17 language part: closure obligations, exact per pattern (relang product search with an inverse homomorphism)."""
+import random
+
+from vlib import langcheck as LC, lang, patsets, relang as R
+from vlib.common import REPO
+from vlib.par import pmap
+from vlib.spec import pat as P
+
+F, G, W = LC.F, LC.G, LC.W
+L = patsets.L
+
+
+def lower(c):
+    return c + 32 if 65 <= c <= 90 else c
+
+
+def slash(c):
+    return 47 if c == 92 else c
+
+
+def swap_tokens(tokens):
+    out = []
+    for t in tokens:
+        if t[0] in ('lit', 'esc'):
+            out.append((t[0], t[1].swapcase()))
+        elif t[0] == 'br':
+            items = []
+            for it in t[2]:
+                if it[0] == 'ch':
+                    items.append(('ch', it[1].swapcase()))
+                elif it[0] == 'rng' and it[1].isalpha() and it[2].isalpha() and it[1].islower() == it[2].islower():
+                    items.append(('rng', it[1].swapcase(), it[2].swapcase()))
+                else:
+                    items.append(it)
+            out.append(('br', t[1], tuple(items)))
+        elif t[0] == 'ext':
+            out.append(('ext', t[1], tuple(swap_tokens(a) for a in t[2])))
+        else:
+            out.append(t)
+    return tuple(out)
+
+
+def has_backslash(tokens):
+    for t in tokens:
+        if t[0] == 'esc':
+            return True
+        if t[0] == 'ext' and any(has_backslash(a) for a in t[2]):
+            return True
+    return False
+
+
+def item(args):
+    els, kind, is_bytes = args
+    api = F if kind == 'fnmatch' else G
+    txt = P.render(els)
+    pt = txt.encode('latin-1') if is_bytes else txt
+    base = (G.G | G.E) if kind == 'glob' else F.E
+    out = []
+
+    def rx(p, fl):
+        r = api.translate(p, flags=fl)
+        if len(r[0]) != 1 or r[1]:
+            raise ValueError('not a single regex')
+        return R.Impl(r[0][0])
+
+    def cmp(name, a, b, replay_flags, note):
+        r = R.product_search([a, b], lambda t: t[0] != t[1])
+        if r is None:
+            out.append(('proved', name, None))
+        else:
+            w = R.to_str(r[0], is_bytes)
+            out.append(('refuted', name, dict(pattern=txt, mode=kind, bytes=is_bytes, witness=w, note=note, flags=replay_flags)))
+    try:
+        ins = rx(pt, base | W.IGNORECASE | W.FORCEUNIX)
+        cmp('C17.lang.insensitive_mode_closed_under_ASCII_case_of_the_name', ins, R.Mapped(ins, lower, range(65, 91)), base | W.IGNORECASE | W.FORCEUNIX, 'name vs lower(name)')
+        sw = P.render(swap_tokens(els))
+        spt = sw.encode('latin-1') if is_bytes else sw
+        cmp('C17.lang.insensitive_mode_unchanged_by_case_of_literal_pattern_text', ins, rx(spt, base | W.IGNORECASE | W.FORCEUNIX), base | W.IGNORECASE | W.FORCEUNIX, f'pattern vs {sw!r}')
+        cmp('C17.lang.CASE_wins_over_IGNORECASE', rx(pt, base | W.IGNORECASE | W.CASE | W.FORCEUNIX), rx(pt, base | W.CASE | W.FORCEUNIX), base | W.IGNORECASE | W.CASE | W.FORCEUNIX, 'C|I vs C')
+        cmp('C17.lang.FORCEWIN_plus_FORCEUNIX_cancel', rx(pt, base | W.FORCEWIN | W.FORCEUNIX), rx(pt, base), base | W.FORCEWIN | W.FORCEUNIX, 'W|U vs neither')
+        win = rx(pt, base | W.FORCEWIN)
+        cmp('C17.lang.FORCEWIN_slash_and_backslash_in_the_name_interchangeable', win, R.Mapped(win, slash, [92]), base | W.FORCEWIN, 'name vs name with \\\\ -> /')
+        if not has_backslash(els):
+            cmp('C17.lang.FORCEWIN_equals_unix_IGNORECASE_on_the_slash-normalised_name', win, R.Mapped(ins, slash, [92]), base | W.FORCEWIN, 'win(name) vs unix|I(name with \\\\ -> /)')
+        winc = rx(pt, base | W.FORCEWIN | W.CASE)
+        cmp('C17.lang.FORCEWIN_with_CASE_is_case_sensitive_(equals_unix_CASE_on_the_slash-normalised_name)', winc,
+            R.Mapped(rx(pt, base | W.FORCEUNIX | W.CASE), slash, [92]), base | W.FORCEWIN | W.CASE, 'win|C vs unix|C') if not has_backslash(els) else None
+    except (ValueError, R.Unsupported, R.StateLimit) as e:
+        out.append(('open', 'C17.lang', str(e)))
+    except Exception:
+        import traceback
+        out.append(('broken', 'C17.lang', traceback.format_exc()[-800:]))
+    return out
+
+
+def drive_item(args):
+    """drive / UNC shapes and escaped backslashes under FORCEWIN (glob mode)"""
+    s, is_bytes = args
+    out = []
+    from checks.C09_parts import literal_lang
+    try:
+        for fl, nm in ((G.W | G.G, 'FORCEWIN'), (G.W | G.G | G.C, 'FORCEWIN|CASE')):
+            m = LC.mode_from_flags(fl, True, is_bytes)
+            pt = s.encode('latin-1') if is_bytes else s
+            r = G.translate(pt, flags=fl)
+            impl = R.Impl(r[0][0])
+            # the drive / UNC prefix is literal and case-insensitive even under CASE
+            pre_end = s.rindex('/') + 1
+            mi = LC.mode_from_flags(G.W | G.G, True, is_bytes)
+            must = R.s_cat(literal_lang_prefix(s[:pre_end], mi, 'must'), literal_lang_prefix(s[pre_end:], m, 'must'), R.s_star(m.SEP))
+            may = R.s_cat(literal_lang_prefix(s[:pre_end], mi, 'may'), literal_lang_prefix(s[pre_end:], m, 'may'), R.s_star(m.SEP))
+            w = R.between(impl, R.Spec(must, m.maxc), R.Spec(may, m.maxc))
+            name = 'C17.lang.drive_and_UNC_prefixes_match_only_literally_and_case-insensitively'
+            if w is None:
+                out.append(('proved', name, None))
+            else:
+                out.append(('refuted', name, dict(pattern=s, mode='glob', bytes=is_bytes, witness=R.to_str(w[0], is_bytes), note=f'{nm}: impl={w[1]} must={w[2]} may={w[3]}', flags=fl)))
+    except (ValueError, IndexError, R.Unsupported, R.StateLimit) as e:
+        out.append(('open', 'C17.lang.drive', f'{s!r}: {e}'))
+    except Exception:
+        import traceback
+        out.append(('broken', 'C17.lang.drive', f'{s!r}: ' + traceback.format_exc()[-800:]))
+    return out
+
+
+def literal_lang_prefix(s, m, which):
+    seps = '/\\'
+    node = R.S1
+    i, n = 0, len(s)
+    while i < n:
+        if s[i] in seps:
+            j = i
+            while j < n and s[j] in seps:
+                j += 1
+            node = R.s_cat(node, R.s_plus(m.SEP) if (which == 'may' and i > 0) else R.s_cat(*([m.SEP] * (j - i))))
+            i = j
+        else:
+            node = R.s_cat(node, R.s_cls(m.fold([(ord(s[i]), ord(s[i]))])))
+            i += 1
+    return node
+
+
 def run(chk, tier, seed):
-    pass
+    A = P.atoms('aB.', brackets=False) + [('br', False, (('ch', 'a'), ('ch', 'B'))), ('br', True, (('ch', 'A'),)), ('br', False, (('rng', 'a', 'c'),)), ('br', False, (('posix', 'upper'),)),
+                                         ('br', False, (('rng', 'A', 'C'), ('ch', 'z')))]
+    names = list(P.enum_names(A, 2)) + [(('ext', k, ((L('a'),), (L('B'), ('star',)))),) for k in '?*+@'] + [(('ext', '!', ((L('a'), L('B')),)),), (L('A'), ('ext', '+', ((('q',),),)), L('b'))]
+    mk = patsets.mkpath
+    paths = [mk([(L('a'),), (L('B'),)]), mk([(('star',),), (L('B'), ('star',))]), mk([(('gs',),), (L('A'),)]), mk([(L('a'),), (('gs',),)]), mk([(L('A'), L('b')), (('q',), L('c'))]),
+             mk([(L('a'), ('q',), L('b'))]), mk([(L('a'), ('br', True, (('ch', 'x'),)), L('b'))]), mk([(L('a'), ('br', False, (('rng', 'a', 'z'),)), L('b'))]), mk([(L('a'),), (L('B'),)], trail=True),
+             mk([(('ext', '@', ((L('a'),), (L('B'),))),), (('star',),)]), mk([(L('a'), ('esc', '\\'), L('b'))]), mk([(('star',), ('q',), L('A'))]), mk([(L('a'),), (L('B'),)], lead=True)]
+    items = [(p, 'fnmatch', False) for p in names] + [(p, 'glob', False) for p in paths] + [(p, 'fnmatch', True) for p in names[::5]] + [(p, 'glob', True) for p in paths[::3]]
+    if tier != 'quick':
+        g = P.Gen(seed + 170, alphabet='aAbB.c', path=True)
+        items += [(g.name_pattern(5, 2), 'fnmatch', False) for _ in range(3000)] + [(g.path_pattern(3, 3, 1), 'glob', False) for _ in range(3000)]
+    agg = {}
+    for res in pmap(item, items):
+        for st, name, info in res:
+            a = agg.setdefault(name, dict(proved=0, refuted=0, open=0))
+            if st == 'proved':
+                a['proved'] += 1
+                chk.case(key=(name, a['proved']))
+            elif st == 'open':
+                a['open'] += 1
+                chk.leave_open(name, info)
+            elif st == 'broken':
+                chk.broke(info)
+            else:
+                a['refuted'] += 1
+                report(chk, name, info)
+    drives = ['c:/a', 'C:/aB', '//host/share/a', '//HOST/sh*re/a', '//?/UNC/host/share/a', '//?/unc/Host/Share/aB', '//?/c:/a', '//./c:/a', '//?/GLOBAL/c:/a', 'c:/', '//h/s/']
+    for res in pmap(drive_item, [(d, False) for d in drives] + [(d, True) for d in drives[::3]]):
+        for st, name, info in res:
+            a = agg.setdefault(name, dict(proved=0, refuted=0, open=0))
+            if st == 'proved':
+                a['proved'] += 1
+                chk.case(key=(name, a['proved']))
+            elif st == 'open':
+                a['open'] += 1
+                chk.leave_open(name, info)
+            elif st == 'broken':
+                chk.broke(info)
+            else:
+                a['refuted'] += 1
+                report(chk, name, info)
+    # escaped backslash is a separator under FORCEWIN: `a\\\\b` == `a/b`
+    for p1, p2 in (('a\\\\b', 'a/b'), ('*\\\\b*', '*/b*'), ('a\\\\**\\\\b', 'a/**/b')):
+        nm = 'C17.lang.FORCEWIN_escaped_backslash_in_the_pattern_is_a_separator'
+        a = agg.setdefault(nm, dict(proved=0, refuted=0, open=0))
+        r = R.equal(R.Impl(G.translate(p1, flags=G.W | G.G)[0][0]), R.Impl(G.translate(p2, flags=G.W | G.G)[0][0]))
+        if r is None:
+            a['proved'] += 1
+            chk.case(key=(nm, p1))
+        else:
+            a['refuted'] += 1
+            report(chk, nm, dict(pattern=p1, mode='glob', bytes=False, witness=R.to_str(r[0]), note=f'vs {p2!r}', flags=G.W | G.G))
+    for name, a in agg.items():
+        chk.obligation('C17:' + name, 'proved' if not a['refuted'] and a['proved'] else ('refuted' if a['refuted'] else 'undecided'), 'relang', 0.0,
+                       detail=f"{a['proved']} patterns proved, {a['refuted']} refuted, {a['open']} open")
+    chk.rule = ('closure obligations per pattern, each decided for ALL names by a product search with an inverse homomorphism (ASCII lower-casing / backslash->slash): patterns = all 1-2 token '
+                'name patterns over a mixed-case alphabet with brackets, ranges, POSIX upper, groups; 13 path patterns incl. **, escaped backslash, leading/trailing separators; str and bytes; '
+                '11 drive/UNC shapes (literal prefix, case-insensitive even under CASE)')
+    chk.bounds.update(dict(c17_patterns=len(items), c17_drive_shapes=len(drives), c17_clauses=agg))
+    chk.sample(dict(pattern='a[B-D]*', clause='insensitive mode closed under ASCII case of the name'))
+
+
+def report(chk, name, info):
+    api = 'fnmatch.fnmatch' if info['mode'] == 'fnmatch' else 'glob.globmatch'
+    pt = info['pattern'].encode('latin-1') if info['bytes'] else info['pattern']
+    w = info['witness']
+    alt = (w.lower() if 'case' in name or 'CASE' in name else (w.replace(b'\\', b'/') if isinstance(w, bytes) else w.replace('\\', '/')))
+    chk.violation(dict(obligation=name, pattern=info['pattern'], mode=info['mode'], witness=w, note=info['note']),
+                  f'{name}: pattern {info["pattern"]!r} ({info["mode"]}): witness name {w!r} ({info["note"]})',
+                  f"import sys; sys.path.insert(0, {REPO!r})\nfrom wcmatch import fnmatch, glob\nprint({api}({w!r}, {pt!r}, flags={info['flags']}), {api}({alt!r}, {pt!r}, flags={info['flags']}))\nsys.exit(1)\n")
